@@ -61,11 +61,12 @@ def _oracle_values(ctx, out, inp):
     """results == recursive evaluation, same nesting; unexpected errors are property failures"""
     real, dag = out["real"], out["dag"]
     fails = out["fails"]
-    ev = U.reference_eval(dag, fails)
+    ev = U.reference_eval(dag, fails, inp.get("cache0"))
     flat = out["flat_ids"]
     expect = {i: ev(i) for i in flat}
+    c0 = {int(k) for k in (inp.get("cache0") or {})}
     missing = any(isinstance(v, tuple) and v[0] == "missing" for v in expect.values()) or \
-        any(nd[0] == "x" for nd in dag["nodes"])
+        any(nd[0] == "x" and i not in c0 for i, nd in enumerate(dag["nodes"]))
     err = real["error"]
     if err is not None:
         if isinstance(err, U.Hang):
@@ -118,7 +119,18 @@ def case_trace(ctx, inp):
         ctx.branch("data-only-request")
     if any(nd[0] == "a" for nd in inp["dag"]["nodes"]):
         ctx.branch("alias")
-    if out.get("model") and out["model"]["outcome"][0] == "done":
+    if any(not out["keys"][i] for i in out["flat_ids"]):
+        ctx.branch("falsy-key-requested")
+    if inp.get("cache0"):
+        ctx.branch("warm-cache")
+        c0 = {int(k) for k in inp["cache0"]}
+        if any(inp["dag"]["nodes"][i][0] == "t" for i in c0):
+            ctx.branch("warm-cache:task-key-cached")
+        if any(inp["dag"]["nodes"][i][0] == "x" for i in c0):
+            ctx.branch("warm-cache:key-outside-the-graph")
+        if any(v == 0 for v in inp["cache0"].values()):
+            ctx.branch("warm-cache:falsy-value")
+    if out.get("model") and out["model"]["outcome"][0] == "done" and not inp.get("cache0"):
         # Lean denote == python reference on the requested keys
         den = ctx.lean(Sym("denote"), U.enc_nodes(inp["dag"]), out["flat_ids"])
         ctx.eq("Lean denote vs scheduler result", [d for d in den], [x for x in out["model"]["result"]])
@@ -141,12 +153,26 @@ def case_start(ctx, inp):
         return
     prio = sorted([idof[k], int(v)] for k, v in o.items())
     ties = len({p for _, p in prio}) != len(prio)
+    cache0 = {int(k): v for k, v in (inp.get("cache0") or {}).items()}
+    keys_none = bool(inp.get("keys_none"))
     try:
-        st = start_state_from_dask(conv, keys={keys[i] for i in flat}, cache=None, sortkey=o.get)
+        st = start_state_from_dask(conv, keys=None if keys_none else {keys[i] for i in flat},
+                                   cache={keys[i]: v for i, v in cache0.items()} if cache0 else None, sortkey=o.get)
         impl = [Sym("ok"), U.ser_state(st, idof)]
     except ValueError as e:
         impl = [Sym("raised"), [Sym("missingDep")]] if "Missing dependency" in str(e) else [Sym("raised"), [Sym("ValueError")]]
-    model = ctx.lean(Sym("start_state"), U.enc_nodes(dag), flat, prio)
+    except KeyError:
+        impl = [Sym("raised"), [Sym("keyError")]]
+        if not any(nd[0] == "x" for nd in dag["nodes"]):
+            ctx.fail("start_state_from_dask raised KeyError on a closed graph", observed="KeyError")
+    if cache0 or keys_none:
+        model = ctx.lean(Sym("start_state"), U.enc_nodes(dag), flat, prio, sorted([k, v] for k, v in cache0.items()), keys_none)
+        if cache0:
+            ctx.branch("start:warm-cache")
+        if keys_none:
+            ctx.branch("start:keys=None")
+    else:
+        model = ctx.lean(Sym("start_state"), U.enc_nodes(dag), flat, prio)
     if model[0] == "raised":
         model = [model[0], [model[1][0]]]
         ctx.branch("start:raised")
@@ -164,6 +190,41 @@ def case_start(ctx, inp):
             ctx.branch("start:several-ready")
         if s[4]:
             ctx.branch("start:data-cached")
+
+
+def case_nested(ctx, inp):
+    """nested_get(ind, coll) at function level: any nesting (empty lists, lists of empty lists, single keys), every key
+    flavour incl. keys that are false in a boolean context, requested keys missing from the collection (KeyError)"""
+    from dask.local import nested_get
+    req, known, kind, n = inp["req"], inp["known"], inp["keys"], inp["n"]
+    keys = [U.key_of(i, kind, n) for i in range(n)]
+    coll = {keys[i]: 7 * i + 1 for i in known}
+    ind = U.map_req(req, lambda i: keys[i])
+    try:
+        got = nested_get(ind, coll)
+        impl = [Sym("ok"), U._tuple_to_list(got)]
+        if not U.same_nesting(req, got):
+            ctx.fail("nested_get does not pack the values in the nesting of the request", observed=repr(got)[:200],
+                     expected=repr(U.map_req(req, lambda i: 7 * i + 1))[:200])
+        elif U._tuple_to_list(got) != U.map_req(req, lambda i: 7 * i + 1):
+            ctx.fail("nested_get returns other values than coll[key] for the requested keys", observed=repr(got)[:200],
+                     expected=repr(U.map_req(req, lambda i: 7 * i + 1))[:200])
+    except KeyError:
+        impl = [Sym("raised")]
+        if all(i in known for i in U.flatten_req(req)):
+            ctx.fail("nested_get raised KeyError although every requested key is in the collection", observed="KeyError")
+        ctx.branch("nested:KeyError")
+    model = ctx.lean(Sym("nested_get"), req, sorted(known))
+    ctx.eq("nested_get", model, impl)
+    flat = list(U.flatten_req(req))
+    if not isinstance(req, list):
+        ctx.branch("nested:single-key")
+    elif not flat:
+        ctx.branch("nested:no-key-at-all")
+    if isinstance(req, list) and any(isinstance(r, list) for r in req):
+        ctx.branch("nested:depth>=2")
+    if any(not keys[i] for i in flat):
+        ctx.branch("nested:falsy-key-requested")
 
 
 _POOLS = {}
@@ -186,14 +247,15 @@ def case_api(ctx, inp):
     delays = {i: rng.choice([0, 0, 0.0005, 0.002]) for i in tasks} if sched in ("threaded", "threadpool") else {}
     dsk, keys = U.render(dag, None, delays)
     real_req = U.map_req(req, lambda i: keys[i])
-    ev = U.reference_eval(dag)
+    ev = U.reference_eval(dag, None, inp.get("cache0"))
     want = U.map_req(req, ev)
+    ckw = {"cache": {keys[int(i)]: v for i, v in inp["cache0"].items()}} if inp.get("cache0") else {}
     try:
         if sched == "sync":
-            got = dask.get(dsk, real_req) if inp.get("entry") == "dask.get" else get_sync(dsk, real_req, chunksize=cs)
+            got = dask.get(dsk, real_req) if inp.get("entry") == "dask.get" and not ckw else get_sync(dsk, real_req, chunksize=cs, **ckw)
         elif sched == "threaded":
             from dask.threaded import get as tget
-            got = tget(dsk, real_req, num_workers=nw, chunksize=cs)
+            got = tget(dsk, real_req, num_workers=nw, chunksize=cs, **ckw)
         elif sched == "threadpool":
             from dask.threaded import pack_exception
             pool = _pool(nw)
@@ -213,10 +275,13 @@ def case_api(ctx, inp):
     flat0 = list(U.flatten_req(req))
     if not flat0:
         ctx.branch("api:empty-request")
+    if any(not keys[i] for i in flat0):
+        ctx.branch("api:falsy-key-requested")
     if sched != "mp":
         # executed task keys == the tasks reachable from the request, each exactly once
         execs = sorted(k for k, *_ in U.exec_log())
-        need = sorted(i for i in U.needed_ids(dag, flat0) if dag["nodes"][i][0] == "t")
+        need = sorted(i for i in U.needed_ids(dag, flat0, inp.get("cache0")) if dag["nodes"][i][0] == "t"
+                      and str(i) not in (inp.get("cache0") or {}))
         if execs != need:
             ctx.fail(f"{sched}: executed tasks are not exactly the tasks needed for the request (each once)",
                      observed=execs, expected=need)
@@ -226,8 +291,11 @@ def case_api(ctx, inp):
         ctx.fail(f"{sched}: result differs from the recursive evaluation", observed=U._tuple_to_list(got),
                  expected=U._tuple_to_list(want))
     flat = list(U.flatten_req(req))
-    den = ctx.lean(Sym("denote"), U.enc_nodes(dag), flat)
-    ctx.eq("Lean denote vs python recursive evaluation", den, [ev(i) for i in flat])
+    if not inp.get("cache0"):
+        den = ctx.lean(Sym("denote"), U.enc_nodes(dag), flat)
+        ctx.eq("Lean denote vs python recursive evaluation", den, [ev(i) for i in flat])
+    else:
+        ctx.branch("api:warm-cache")
 
 
 def case_exh(ctx, inp):
@@ -258,7 +326,25 @@ def _timed(name, fn):
     return run
 
 
-CASES = {k: _timed(k, f) for k, f in {"trace": case_trace, "start": case_start, "api": case_api, "exh": case_exh}.items()}
+CASES = {k: _timed(k, f) for k, f in {"trace": case_trace, "start": case_start, "api": case_api, "exh": case_exh,
+                                      "nested": case_nested}.items()}
+
+
+def _gen_cache0(rng, dag, sound=False):
+    """a caller-supplied cache: mostly the right values (what the keys denote), for task keys, data keys, aliases and -
+    when the graph refers to keys it does not contain - for those; sometimes 0 (a false value), sometimes a wrong value"""
+    ev = U.reference_eval(dag)
+    out = {}
+    n = len(dag["nodes"])
+    for i in rng.sample(range(n), rng.randint(1, min(3, n))):
+        v = ev(i)
+        if not isinstance(v, int) or (not sound and rng.random() < 0.15):
+            v = rng.choice([0, 0, 7, 12345])
+        out[str(i)] = v
+    for i, nd in enumerate(dag["nodes"]):
+        if nd[0] == "x" and rng.random() < 0.7:
+            out[str(i)] = rng.choice([0, 4, 99])
+    return out
 
 
 def _small_dags(n):
@@ -272,27 +358,54 @@ def generate(ctx):
     yield "trace", {"dag": {"nodes": [["t", [], []], ["t", [], []], ["t", [0, 1], [0, 1]]], "keys": "str", "style": "legacy"},
                     "req": 2, "nw": 2, "cs": -1, "fails": {}, "choices": [0, 0, 0], "seed": 0, "bias": None}
     for _ in range(ctx.n(1500, 8000)):
-        yield "trace", U.gen_trace_input(rng, max_n=rng.choice([4, 7, 10, 14]), fail_p=0.0, missing_p=0.03)
+        inp = U.gen_trace_input(rng, max_n=rng.choice([4, 7, 10, 14]), fail_p=0.0, missing_p=0.03)
+        if rng.random() < 0.12:
+            inp["cache0"] = _gen_cache0(rng, inp["dag"])
+        yield "trace", inp
     for _ in range(ctx.n(300, 3000)):
         inp = U.gen_trace_input(rng, max_n=rng.choice([3, 6, 10]), missing_p=0.15)
         yield "start", {"dag": inp["dag"], "req": inp["req"]}
         if rng.random() < 0.1:
             yield "start", {"dag": inp["dag"], "req": []}
+        if rng.random() < 0.3:
+            yield "start", {"dag": inp["dag"], "req": inp["req"], "cache0": _gen_cache0(rng, inp["dag"]),
+                            "keys_none": rng.random() < 0.3}
     scheds = ["sync", "sync", "threaded", "threaded", "threadpool"]
     for i in range(ctx.n(80, 1200)):
         inp = U.gen_trace_input(rng, max_n=rng.choice([6, 12, 25, 40]))
         yield "api", {"dag": inp["dag"], "req": inp["req"], "sched": rng.choice(scheds), "nw": rng.choice([1, 2, 3, 4, 8]),
                       "cs": rng.choice([1, 2, 5, -1]), "seed": rng.randrange(1 << 30),
                       "entry": rng.choice(["dask.get", "get_sync"])}
+    for i in range(ctx.n(12, 150)):
+        inp = U.gen_trace_input(rng, max_n=rng.choice([5, 10, 20]))
+        yield "api", {"dag": inp["dag"], "req": inp["req"], "sched": rng.choice(["sync", "threaded"]), "nw": rng.choice([1, 2, 4]),
+                      "cs": rng.choice([1, 2, -1]), "seed": rng.randrange(1 << 30), "entry": "get_sync",
+                      "cache0": _gen_cache0(rng, inp["dag"], sound=True)}
     for sched in ("sync", "sync", "threaded", "threaded", "threadpool", "sync"):
         inp = U.gen_trace_input(rng, max_n=rng.choice([4, 9]))
         yield "api", {"dag": inp["dag"], "req": rng.choice([[], [[], []], [[]]]), "sched": sched, "nw": rng.choice([1, 2, 4]),
                       "cs": rng.choice([1, 2, -1]), "seed": 1, "entry": rng.choice(["dask.get", "get_sync"])}
     for i in range(ctx.n(3, 12)):
         inp = U.gen_trace_input(rng, max_n=rng.choice([5, 10]))
-        inp["dag"]["keys"] = rng.choice(["str", "tuple"])
+        inp["dag"]["keys"] = rng.choice(["str", "tuple", "falsy"])
         yield "api", {"dag": inp["dag"], "req": inp["req"], "sched": "mp", "nw": 2, "cs": rng.choice([1, 6, -1]),
                       "seed": 0, "optimize": rng.random() < 0.5}
+    # nested_get at function level: random nestings + every nesting of depth <= 2 over <= 2 keys
+    def gen_nest(depth):
+        if depth == 0 or rng.random() < 0.45:
+            return rng.randrange(5)
+        return [gen_nest(depth - 1) for _ in range(rng.choice([0, 0, 1, 2, 3]))]
+    for _ in range(ctx.n(250, 2500)):
+        req = gen_nest(rng.randint(0, 3))
+        flat = sorted(set(U.flatten_req(req)))
+        known = [i for i in range(5) if i in flat or rng.random() < 0.5]
+        if flat and rng.random() < 0.1:
+            known.remove(rng.choice(flat))
+        yield "nested", {"req": req, "known": known, "keys": rng.choice(["falsy", "falsy", "str", "tuple", "int"]), "n": 5}
+    small = [0, 1, [], [0], [1], [0, 1], [[]], [[], []], [[0]], [[0], []], [[], [0]], [[0], [1]], [[0, 1]], [0, [1]], [[0], 1], [[[]]], [[[0]]]]
+    for req in small:
+        for kind in ("falsy", "str"):
+            yield "nested", {"req": req, "known": [0, 1], "keys": kind, "n": 2}
     # exhaustive small spaces: every dag <= 3 nodes + a sample of the 4-node ones (quick) / every dag <= 4
     # nodes + a sample of the 5-node ones (thorough); the last key and all keys requested; EVERY completion order
     for n in range(1, 6 if ctx.thorough() else 5):
@@ -303,8 +416,8 @@ def generate(ctx):
         elif n == 4 and not ctx.thorough():
             dags = rng.sample(dags, 150)
         for nodes in dags:
-            dag = {"nodes": nodes, "keys": rng.choice(["str", "tuple", "int"]), "style": rng.choice(["legacy", "spec", "mixed"])}
-            for req in ([n - 1], list(range(n)), rng.choice([[], [[], []], [[], [0]]])):
+            dag = {"nodes": nodes, "keys": rng.choice(["str", "tuple", "int", "falsy"]), "style": rng.choice(["legacy", "spec", "mixed"])}
+            for req in ([n - 1], list(range(n)), rng.choice([[], [[], []], [[], [0]], n - 1, n - 1])):
                 yield "exh", {"dag": dag, "req": req, "nw": rng.choice([1, 2, 3]), "cs": rng.choice([1, 2, -1]),
                               "fails": {}, "seed": 0, "bias": None, "limit": 300}
 
